@@ -172,7 +172,7 @@ def extra_add(rng, variants=VARIANTS, arches=None, invalid=0.25):
     op = {"op": "add", "variant": v, "arch": a,
           "path": pick(rng, ["%s/%s/os/GPL" % (v, a), "%s/%s/os2/EULA" % (v, a), "%s/%s/osx" % (v, a), "README", "%s/%s/os/a/b/c" % (v, a),
                              "compose/%s/%s/os/GPL" % (v, a), "%s/%s/os/%s/%s/os/LICENSE" % (v, a, v, a)]),
-          "size": rng.choice([0, 1, 18092, 2 ** 33]),
+          "size": rng.choice([0, 1, 18092, 2 ** 33, 2 ** 64 + 1, {"__float__": "inf"}, {"__float__": "-inf"}, 1.5]),
           "checksums": dict((t, hexstr(rng, 8)) for t in subset(rng, pools.CHECKSUM_TYPES + ["SHA256", "Md5", "sha3_256", "x-y"], 0, 3))}
     if rng.random() < invalid:
         k = pick(rng, ["arch", "abs", "empty", "checksums", "variant"])
